@@ -215,14 +215,23 @@ def c17_decls(tier, rng):
                 display = extra_chars.pop()
                 ch = ord(display)
             alts = []
-            if rng.random() < 0.3:
-                for _ in range(rng.randint(1, 3)):
+            if rng.random() < 0.4:
+                for _ in range(rng.randint(1, 4)):
                     cand = rng.randint(0, min(limit, 256) - 1)
                     if cand not in used:
                         used.add(cand)
                         alts.append(cand)
+            alt_src = [lit_form(rng, a, True) for a in alts]
+            # alternatives may be spread over several #[alt(..)] attributes, before or after #[display]
+            groups = []
+            rest = list(alt_src)
+            while rest:
+                k = rng.randint(1, len(rest))
+                groups.append(rest[:k])
+                rest = rest[k:]
             variants.append(dict(name=name, ch=ch, display=display, disc=dsc, alts=alts,
-                                 disc_src=lit_form(rng, dsc, repr_u8), alt_src=[lit_form(rng, a, True) for a in alts]))
+                                 disc_src=lit_form(rng, dsc, repr_u8), alt_src=alt_src, alt_groups=groups,
+                                 alt_first=rng.random() < 0.5, trailing_comma=rng.random() < 0.3))
         # variant names must be distinct identifiers and display characters distinct
         names = set()
         for i, v in enumerate(variants):
@@ -243,10 +252,13 @@ def enum_source(d, name="E", derives="Clone, Copy, Debug, PartialEq, Eq, Hash, C
         lines.append("#[repr(u8)]")
     lines.append("pub enum %s {" % name)
     for v in d["variants"]:
+        attrs = []
         if v.get("display"):
-            lines.append("    #[display('%s')]" % v["display"])
-        if v["alts"]:
-            lines.append("    #[alt(%s)]" % ", ".join(v["alt_src"]))
+            attrs.append("    #[display('%s')]" % v["display"])
+        alt_lines = ["    #[alt(%s%s)]" % (", ".join(g), "," if v.get("trailing_comma") else "")
+                     for g in v.get("alt_groups", [v["alt_src"]] if v["alts"] else [])]
+        attrs = alt_lines + attrs if v.get("alt_first") else attrs + alt_lines
+        lines.extend(attrs)
         if v.get("disc_src") is None:
             lines.append("    %s," % v["name"])
         else:
